@@ -333,8 +333,16 @@ def gen_flat(rng):
         else:
             parts.append("{{{%s|%s}}}" % (rng.choice(FLAT_KEYS), rng.choice(FLAT_DEFAULTS)))
     body = "".join(parts)
-    args = [rng.choice(FLAT_ARGS) for _ in range(rng.randint(0, 5))]
-    page = "{{" + "|".join([call] + args) + "}}"
+    def one_call():
+        cl = call if rng.random() < 0.7 else rng.choice([name, "nosuch", name + "x"])
+        return "{{" + "|".join([cl] + [rng.choice(FLAT_ARGS) for _ in range(rng.randint(0, 5))]) + "}}"
+    page = one_call()
+    if rng.random() < 0.4:
+        # text and more calls around it (each call is expanded on its own, the text stays)
+        page = rng.choice(["", "t ", "a\n", "* "]) + page
+        for _ in range(rng.randint(1, 2)):
+            page += rng.choice(["", " ", "\n", "x", "\n* ", "=", "|"]) + one_call()
+        page += rng.choice(["", " z", "\n"])
     return {"lib": [[name, body, False]] if present else [], "page": page, "opts": {}, "title": "Tt"}
 
 
@@ -351,31 +359,32 @@ def flat_rule(run, quick):
             run.property_failure("flat:%s:%s" % (r.get("outcome"), r.get("exc", "")), "expand() did not return normally: %r" % (r,), c)
             continue
         pa = r["page_ast"]
-        if len(pa) != 1 or isinstance(pa[0], int) or pa[0][0] != "T" or any(not isinstance(x, int) for x in pa[0][1][0]):
-            run.correspondence_break("a generated flat call was not read as one call", c, page_ast=pa)
+        if any(not isinstance(x, int) and (x[0] != "T" or any(not isinstance(y, int) for y in x[1][0])) for x in pa) \
+                or sum(1 for x in pa if not isinstance(x, int)) != c["page"].count("{{"):
+            run.correspondence_break("a generated page of flat calls was not read as text and calls", c, page_ast=pa)
             continue
-        name = "".join(chr(x) for x in pa[0][1][0]).strip()
-        coq_cases.append("(%s, %s, %s, %s)" % (G.coq_lib([[t[0], t[1], t[2]] for t in r["lib_ast"]]), cstr(name),
-                                               clist(pa[0][1][1:], G.coq_enc, "enc"), cstr(r["out"])))
+        # the names as the expander sees them: blanks around the written name are not part of it
+        pa = [x if isinstance(x, int) else ["T", [[ord(ch) for ch in "".join(chr(y) for y in x[1][0]).strip()]] + x[1][1:]] for x in pa]
+        coq_cases.append("(%s, %s, %s)" % (G.coq_lib([[t[0], t[1], t[2]] for t in r["lib_ast"]]), G.coq_enc(pa), cstr(r["out"])))
         idx.append(i)
     imports = IMPORTS + ["Model.FlatCall"]
-    notflat, errs = lib.coq_eval_failing("c04f0", imports, "list tpl * str * list enc * str", coq_cases,
-                                         "fun '(l, n, a, o) => flat_ok parser_functions l n a", chunk=350)
+    notflat, errs = lib.coq_eval_failing("c04f0", imports, "list tpl * enc * str", coq_cases,
+                                         "fun '(l, pg, o) => forallb (flat_item parser_functions l) pg", chunk=350)
     for e in errs:
         run.correspondence_break("model evaluation failed (flat fragment)", None, error=e)
     for b in notflat:
         run.correspondence_break("a generated flat call is outside the fragment of Model.FlatCall.flat_ok", cases[idx[b]])
-    bad, errs = lib.coq_eval_failing("c04f", imports, "list tpl * str * list enc * str", coq_cases,
-                                     "fun '(l, n, a, o) => str_eqb (codes (result_of l n a)) o", chunk=350)
+    bad, errs = lib.coq_eval_failing("c04f", imports, "list tpl * enc * str", coq_cases,
+                                     "fun '(l, pg, o) => str_eqb (codes (page_result l pg)) o", chunk=350)
     for e in errs:
         run.correspondence_break("model evaluation failed (flat rule)", None, error=e)
     for b in bad:
         if b in notflat:
             continue
         c = cases[idx[b]]
-        want = lib.coq_eval_term(imports, "(fun '(l, n, a, o) => codes (result_of l n a)) (%s)" % coq_cases[b])
+        want = lib.coq_eval_term(imports, "(fun '(l, pg, o) => codes (page_result l pg)) (%s)" % coq_cases[b])
         run.property_failure("c04:flat-call-differs-from-the-transclusion-rule",
-                             "expand(%r) with templates %r gave %r; the transclusion rule (Model.FlatCall.result_of) gives code points %s"
+                             "expand(%r) with templates %r gave %r; the transclusion rule (Model.FlatCall.page_result) gives code points %s"
                              % (c["page"], c["lib"], res[idx[b]]["out"], " ".join(want.split())[:300]), c)
     run.extra["flat_calls_checked_against_the_rule"] = len(coq_cases)
 
